@@ -389,4 +389,113 @@ theorem ctrIdMpi_flat_inverse (w : Nat) (hw : 0 < w) (L : List Nat) (g : Nat) (h
   simp only [List.mapM_cons, List.mapM_nil, h1, hp]
   rfl
 
+/-! ### `assemble_striped_array` -/
+
+theorem length_stripe_congr {β γ : Type} (w : Nat) (xs : List β) (ys : List γ) (h : xs.length = ys.length) (r : Nat) :
+    (stripe w xs r).length = (stripe w ys r).length := by
+  induction xs generalizing ys r with
+  | nil =>
+    cases ys with
+    | nil => simp
+    | cons y ys => simp at h
+  | cons x xs ih =>
+    cases ys with
+    | nil => simp at h
+    | cons y ys =>
+      have h' : xs.length = ys.length := by simpa using h
+      cases r with
+      | zero => simp only [stripe, List.length_cons, ih ys h']
+      | succ r => simp only [stripe]; exact ih ys h' r
+
+theorem stripe_one (xs : List β) : stripe 1 xs 0 = xs := by
+  induction xs with
+  | nil => rfl
+  | cons a l ih => simp only [stripe]; rw [ih]
+
+theorem sumTo_length_stripe (w : Nat) (hw : 0 < w) (xs : List β) :
+    Ens.sumTo w (fun r => (stripe w xs r).length) = xs.length := by
+  have h := (stripe_perm w hw xs).length_eq
+  rw [List.length_flatMap] at h
+  rw [← h]
+  clear h
+  induction w with
+  | zero => rfl
+  | succ k _ =>
+    have : ∀ (m : Nat) (f : Nat → Nat), Ens.sumTo m f = ((List.range m).map f).sum := by
+      intro m f
+      induction m with
+      | zero => rfl
+      | succ j ihj =>
+        show Ens.sumTo j f + f j = _
+        rw [ihj, List.range_succ, List.map_append, List.sum_append]; simp
+    exact this _ _
+
+theorem firstErr_eq_some {w : Nat} {chk : Nat → Option Err} {e : Err} (r0 : Nat) (hr0 : r0 < w)
+    (h0 : chk r0 = some e) (hall : ∀ r, r < w → chk r = none ∨ chk r = some e) : firstErr w chk = some e := by
+  unfold firstErr
+  cases hf : (List.range w).findSome? chk with
+  | none =>
+    rw [List.findSome?_eq_none_iff] at hf
+    have := hf r0 (List.mem_range.mpr hr0)
+    rw [h0] at this; cases this
+  | some e' =>
+    obtain ⟨r, hr, he⟩ := List.exists_of_findSome?_eq_some hf
+    rcases hall r (List.mem_range.mp hr) with h | h
+    · rw [h] at he; cases he
+    · rw [h] at he; exact he.symm ▸ rfl
+
+/-- gathering the stripes of a positive integer array gives the array back on every rank;
+    a non-positive entry raises ImproperlyConfigured (world size > 1) -/
+theorem assembleStripedArray_stripes (w : Nat) (hw : 0 < w) (xs : List Int) :
+    ((∀ x ∈ xs, 0 < x) → assembleStripedArray w (fun r => stripe w xs r) = .ok xs) ∧
+    (w ≠ 1 → (∃ x ∈ xs, x ≤ 0) →
+      assembleStripedArray w (fun r => stripe w xs r) = .error .improperlyConfigured) := by
+  constructor
+  · intro hpos
+    unfold assembleStripedArray
+    by_cases h1 : w = 1
+    · subst h1; simp only [if_true]; rw [stripe_one]
+    · simp only [h1, if_false]
+      rw [sumTo_length_stripe w hw xs]
+      have e1 : firstErr w (fun r => if (stripe w xs r).all (fun x => decide (0 < x)) then none
+          else some Err.improperlyConfigured) = none := by
+        rw [firstErr_eq_none]
+        intro r _
+        have : (stripe w xs r).all (fun x => decide (0 < x)) = true := by
+          rw [List.all_eq_true]
+          intro x hx
+          exact decide_eq_true (hpos x (mem_stripe hx))
+        simp only [this, if_true]
+      have e2 : firstErr w (fun r => if (stripe w xs r).length = (stripeIdx w xs.length r).length then none
+          else some Err.valueError) = none := by
+        rw [firstErr_eq_none]
+        intro r _
+        have : (stripe w xs r).length = (stripeIdx w xs.length r).length := by
+          unfold stripeIdx
+          exact length_stripe_congr w xs (List.range xs.length) (by simp) r
+        simp only [this, if_true]
+      rw [e1]
+      simp only
+      rw [e2]
+      simp only
+      rw [unstripe_stripe w hw xs]
+  · intro h1 hbad
+    obtain ⟨x, hx, hx0⟩ := hbad
+    unfold assembleStripedArray
+    simp only [h1, if_false]
+    have hm : x ∈ (List.range w).flatMap fun r => stripe w xs r := (stripe_perm w hw xs).mem_iff.mpr hx
+    obtain ⟨r0, hr0, hxr⟩ := List.mem_flatMap.mp hm
+    have e1 : firstErr w (fun r => if (stripe w xs r).all (fun x => decide (0 < x)) then none
+        else some Err.improperlyConfigured) = some Err.improperlyConfigured := by
+      apply firstErr_eq_some r0 (List.mem_range.mp hr0)
+      · have : (stripe w xs r0).all (fun x => decide (0 < x)) = false := by
+          rw [List.all_eq_false]
+          exact ⟨x, hxr, by simp; omega⟩
+        simp only [this]; rfl
+      · intro r _
+        by_cases hc : (stripe w xs r).all (fun x => decide (0 < x)) = true
+        · left; simp only [hc, if_true]
+        · right; simp only [hc]; rfl
+    rw [e1]
+
 end Ens.Mpi
